@@ -18,3 +18,12 @@ PART = {
         "race_anchors": ["appendStore", "schemeStore"],
     },
 }
+PART["C03"] = {
+    "runs": [{"name": "beaconnet-manual", "pkg": P, "run": "^TestVF_C03", "timeout": "30m", "timeout_thorough": "120m"}],
+    "rule": "manual network: all (n,t) with n<=5 (quick) / n<=7 (thorough), t in [n/2+1,n], contributor subsets of size t-1/t/t+1, arrival order at each node chosen by permutation number, "
+            "sync disabled; hostile partials (bit-flipped, relabelled round / previous signature, forged or relabelled under a silent member's index, non-member index, replay of the node's own partial, "
+            "duplicates) interleaved; oracle at every aggregation Put: the set of distinct member indices whose partial for exactly (round, previous) the oracle itself verified against the public polynomial "
+            "and that had been handed to that node before the Put (own index credited) must reach the threshold; with t-1 contributors no beacon may appear anywhere. non-trivial = a Put happened with "
+            "|D| <= t+1, or a starved case in which the node saw >= t-2 foreign valid partials and produced nothing",
+    "assumptions": ["delivery recorded at call entry is conservative (can hide, never invent)", "own partial credited unconditionally"],
+}
